@@ -1,6 +1,10 @@
 // gvh-iso — dynamic tie of C20 (independent runtimes are isolated).
 //
-// input : <id> <hex program A> <hex program B> <schedule over {A,B}>
+// input : <id> <hex program A> <hex program B> <schedule over {A,B}> [opts=cpu:N,regpool:N,regage:N]
+//         opts: RuntimeOptions given to rt.New for program A's runtimes ONLY (WithRuntimeContext with a hard
+//         CPU limit, WithRegPoolSize, WithRegSetMaxAge); B's runtimes are always created without options, after
+//         A's.  With the command-line argument "noopts" the opts field is ignored (reference run: B must
+//         behave the same in both runs).
 //         a program is a sequence of chunks separated by a line "--"; chunks of one program
 //         run in order in ONE Runtime (fresh rt.New + lib.LoadAll), sharing its globals;
 //         a chunk that fails (compile or run time) records the error and the program goes on
@@ -60,10 +64,32 @@ type machine struct {
 	pc      int
 }
 
-func newMachine(src string) *machine {
+func parseOpts(spec string) []rt.RuntimeOption {
+	var opts []rt.RuntimeOption
+	for _, kv := range strings.Split(spec, ",") {
+		i := strings.IndexByte(kv, ':')
+		if i < 0 {
+			continue
+		}
+		n, _ := strconv.ParseUint(kv[i+1:], 10, 64)
+		switch kv[:i] {
+		case "cpu":
+			opts = append(opts, rt.WithRuntimeContext(rt.RuntimeContextDef{HardLimits: rt.RuntimeResources{Cpu: n}}))
+		case "mem":
+			opts = append(opts, rt.WithRuntimeContext(rt.RuntimeContextDef{HardLimits: rt.RuntimeResources{Memory: n}}))
+		case "regpool":
+			opts = append(opts, rt.WithRegPoolSize(uint(n)))
+		case "regage":
+			opts = append(opts, rt.WithRegSetMaxAge(uint(n)))
+		}
+	}
+	return opts
+}
+
+func newMachine(src string, opts ...rt.RuntimeOption) *machine {
 	m := &machine{}
 	m.chunks = strings.Split(src, "\n--\n")
-	m.r = rt.New(&m.out)
+	m.r = rt.New(&m.out, opts...)
 	m.cleanup = lib.LoadAll(m.r)
 	emit := func(t *rt.Thread, c *rt.GoCont) (rt.Cont, error) {
 		all := c.Etc()
@@ -113,8 +139,8 @@ func (m *machine) finish() string {
 	return hex.EncodeToString([]byte(s))
 }
 
-func solo(src string) string {
-	m := newMachine(src)
+func solo(src string, opts ...rt.RuntimeOption) string {
+	m := newMachine(src, opts...)
 	for !m.done() {
 		m.step()
 	}
@@ -122,6 +148,7 @@ func solo(src string) string {
 }
 
 func main() {
+	noopts := len(os.Args) > 1 && os.Args[1] == "noopts"
 	in := bufio.NewScanner(os.Stdin)
 	in.Buffer(make([]byte, 1<<20), 1<<26)
 	out := bufio.NewWriter(os.Stdout)
@@ -139,9 +166,13 @@ func main() {
 		a, _ := hex.DecodeString(f[1])
 		b, _ := hex.DecodeString(f[2])
 		A, B := string(a), string(b)
-		sa, sb := solo(A), solo(B)
+		var optsA []rt.RuntimeOption
+		if len(f) > 4 && strings.HasPrefix(f[4], "opts=") && !noopts {
+			optsA = parseOpts(f[4][5:])
+		}
+		sa, sb := solo(A, optsA...), solo(B)
 		// sequential interleaving
-		ma, mb := newMachine(A), newMachine(B)
+		ma, mb := newMachine(A, optsA...), newMachine(B)
 		for _, c := range f[3] {
 			if c == 'A' && !ma.done() {
 				ma.step()
@@ -163,7 +194,7 @@ func main() {
 		var wg sync.WaitGroup
 		start := make(chan struct{})
 		wg.Add(2)
-		go func() { defer wg.Done(); <-start; ca = solo(A) }()
+		go func() { defer wg.Done(); <-start; ca = solo(A, optsA...) }()
 		go func() { defer wg.Done(); <-start; cb = solo(B) }()
 		close(start)
 		wg.Wait()
